@@ -164,6 +164,17 @@ def build(case, with_dask, out_dir=None):
     return det, pipe, obs
 
 
+def snapshot(det, pipe):
+    """the settings of the caller's objects that the swept keys address"""
+    out = [repr(float(det.environment.temperature))]
+    try:
+        for m in pipe.charge_collection.models:
+            out.append(repr(sorted((k, repr(v)) for k, v in dict(m.arguments).items())))
+    except Exception as ex:  # noqa: BLE001
+        out.append("?" + type(ex).__name__)
+    return out
+
+
 def state_hash():
     import verif_probes as vp0
     return vp0.rng_state_hash()
@@ -185,9 +196,13 @@ def run_one(case, with_dask, sched=None, out_dir=None):
             if sched.get("workers"):
                 cfg["num_workers"] = sched["workers"]
         before = state_hash()
+        snap0 = snapshot(det, pipe)
         with dask.config.set(**cfg):
             dt = pyxel.run_mode(mode=obs, detector=det, pipeline=pipe, with_inherited_coords=True)
             shape, cells = dump(dt, names, case["kind"])
+        if case["kind"] in ("enc", "encs") and cells and snapshot(det, pipe) != snap0:
+            # the runs must work on copies: the caller's detector / pipeline keep the settings they had
+            cells[0]["mem"] += 1000
         res = dict(shape=shape, cells=cells, leak=int(state_hash() != before))
         if case["kind"] in ("enc", "encs") and with_dask and cells and (sched or {}).get("scheduler") != "processes":
             # every cell is computed exactly once (+ the one metadata run): surplus executions are added to the trace
@@ -277,8 +292,15 @@ def handle_islands(case):
                 for island in arch._pygmo_archi:
                     pop = island.get_population()
                     isl.append(dict(seed=int(pop.get_seed()) % (2 ** 31), f0=int(pop.get_f()[0][0])))
-                if case.get("evolve"):
-                    arch._pygmo_archi.evolve()
+                if case.get("evolve") and not par:
+                    # the reference: every island's algorithm evolves its population here, one after the other, in
+                    # this thread -- no island threads, no dask
+                    for k, island in enumerate(arch._pygmo_archi):
+                        pop = island.get_algorithm().evolve(island.get_population())
+                        isl[k]["champ_f"] = int(pop.champion_f[0])
+                        isl[k]["champ_x"] = [q(x) for x in pop.champion_x]
+                elif case.get("evolve"):
+                    arch._pygmo_archi.evolve()          # every island in its own thread, DaskIsland.run_evolve
                     arch._pygmo_archi.wait_check()
                     for k, island in enumerate(arch._pygmo_archi):
                         pop = island.get_population()
